@@ -79,8 +79,16 @@ func apiRun(args []string) error {
 				continue
 			}
 			names := lexer.SymbolsByRune(b.p.Lexer())
-			for i, in := range g.Inputs {
-				s := in.S
+			allS := []string{}
+			for _, in := range g.Inputs {
+				allS = append(allS, in.S)
+			}
+			// inputs beyond the case file (judged only by comparing the entry points with one another): a leading byte-order
+			// mark is part of the input for every entry point alike
+			for bi := 0; bi < len(g.Inputs) && bi < 3; bi++ {
+				allS = append(allS, "\ufeff"+g.Inputs[bi].S)
+			}
+			for i, s := range allS {
 				emit := func(ep, out string) { fmt.Fprintf(w, "%s\t%d\t%d\t%s\t%s\n", g.ID, k, i, ep, out) }
 				render := func(ast *DynRoot, err error, raw []lexer.Token) (res string) {
 					defer func() {
@@ -118,7 +126,15 @@ func apiRun(args []string) error {
 				}
 				tr := participle.AllowTrailing(b.trailing)
 				guard("ParseString", func() string { a, e := b.p.ParseString("fn", s, tr); return render(a, e, raw) })
-				guard("ParseBytes", func() string { a, e := b.p.ParseBytes("fn", []byte(s), tr); return render(a, e, raw) })
+				guard("ParseBytes", func() string {
+					// the caller reuses its buffer afterwards: what was returned must not change with it
+					buf := []byte(s)
+					a, e := b.p.ParseBytes("fn", buf, tr)
+					for bi := range buf {
+						buf[bi] = '#'
+					}
+					return render(a, e, raw)
+				})
 				guard("Parse", func() string { a, e := b.p.Parse("fn", strings.NewReader(s), tr); return render(a, e, raw) })
 				// readers that deliver the same bytes differently: data together with io.EOF, one byte per Read, a reader
 				// with a Name() of its own (the caller's filename wins; the reader's name is used only when none is given)
@@ -199,7 +215,11 @@ func apiRun(args []string) error {
 					emit("def.LexString", defKey(t2, e2))
 				}
 				if bd, ok := d.(lexer.BytesDefinition); ok {
-					t3, e3 := lexAll(bd.LexBytes("fn", []byte(s)))
+					buf := []byte(s)
+					t3, e3 := lexAll(bd.LexBytes("fn", buf))
+					for bi := range buf {
+						buf[bi] = '#'
+					}
 					emit("def.LexBytes", defKey(t3, e3))
 				}
 			}
